@@ -35,7 +35,7 @@ theorem swap_evalZ (op : SCmp) (a b : Int) : op.swap.evalZ b a = op.evalZ a b :=
 
 theorem ensureExpr_evalZ (σ : State) {value : PyVal} {v : Expr} (h : ensureExpr value = .ok v) :
     evalZ σ v = value.evalZ σ := by
-  cases value <;> simp [ensureExpr, typeError] at h <;> subst h <;> rfl
+  cases value <;> simp [ensureExpr] at h <;> subst h <;> rfl
 
 theorem exprCmp_truth (σ : State) (op : CmpOp) (self : Expr) (value : PyVal) (c : CObj)
     (h : exprCmp op self value = .ok c) : c.truth σ = cmpZ op (evalZ σ self) (value.evalZ σ) := by
@@ -118,27 +118,26 @@ theorem exprCmpS_truth (σ : State) (op : SCmp) (self : Expr) (value : PyVal) (c
   · rw [exprNe_truth σ self value c hs h]; rfl
 
 theorem pyCmp_truth (σ : State) (op : SCmp) (x y : PyVal) (c : CObj) (hx : x.andTop = true) (hy : y.andTop = true)
-    (h : pyCmp op x y = .ok c) : c.truth σ = op.evalZ (x.evalZ σ) (y.evalZ σ) ∧ x ≠ .none ∧ y ≠ .none := by
+    (h : pyCmp op x y = .ok c) : c.truth σ = op.evalZ (x.evalZ σ) (y.evalZ σ) := by
   unfold pyCmp at h
   split at h
   · rename_i l r
-    refine ⟨?_, by simp, by simp⟩
     split at h
     · rw [exprCmpS_truth σ op.swap r (.ex l) c hy hx h, swap_evalZ]; rfl
     · exact exprCmpS_truth σ op l (.ex r) c hx hy h
   · rename_i l v
-    exact ⟨exprCmpS_truth σ op l (.int v) c hx (by rfl) h, by simp, by simp⟩
+    exact exprCmpS_truth σ op l (.int v) c hx (by rfl) h
   · rename_i v r
-    refine ⟨?_, by simp, by simp⟩
     rw [exprCmpS_truth σ op.swap r (.int v) c hy (by rfl) h, swap_evalZ]; rfl
   · simp [typeError] at h
 
-/-- the surface side conditions of a condition (decidable): no computed addresses, not *sum-minus*, every built
-operand of class `AndExpression` carries `AND` -/
+/-- the surface side conditions of a condition (decidable): no computed addresses, every built operand of class
+`AndExpression` carries `AND`.  (`Sum - expression` operands, formerly class *sum-minus*, are inside since
+`Sum.__sub__` was repaired.) -/
 def SCond.surfOk (env : List VarLoc) : SCond → Bool
-  | .cmp _ a b => a.noM && b.noM && !Gen.sumMinus env a && !Gen.sumMinus env b &&
+  | .cmp _ a b => a.noM && b.noM &&
       (match elabE env a, elabE env b with | .ok x, .ok y => x.andTop && y.andTop | _, _ => true)
-  | .truth e => e.noM && !Gen.sumMinus env e && (match elabE env e with | .ok x => x.andTop | _ => true)
+  | .truth e => e.noM && (match elabE env e with | .ok x => x.andTop | _ => true)
   | .not c => c.surfOk env
   | .and a b => a.surfOk env && b.surfOk env
   | .or a b => a.surfOk env && b.surfOk env
@@ -150,8 +149,8 @@ theorem elabC_truth (env : List VarLoc) (σ : State) : ∀ (c : SCond) (co : COb
   induction c with
   | cmp op a b =>
     intro co hok h
-    simp only [SCond.surfOk, Bool.and_eq_true, Bool.not_eq_true'] at hok
-    obtain ⟨⟨⟨⟨h1, h2⟩, h3⟩, h4⟩, h5⟩ := hok
+    simp only [SCond.surfOk, Bool.and_eq_true] at hok
+    obtain ⟨⟨h1, h2⟩, h5⟩ := hok
     simp only [elabC, bind, Except.bind] at h
     cases hx : elabE env a with
     | error e => rw [hx] at h; cases h
@@ -165,12 +164,11 @@ theorem elabC_truth (env : List VarLoc) (σ : State) : ∀ (c : SCond) (co : COb
         simp only [] at h
         rw [hx, hy] at h5
         simp only [Bool.and_eq_true] at h5
-        obtain ⟨ht, hxn, hyn⟩ := pyCmp_truth σ op x y co h5.1 h5.2 h
-        rw [ht, elab_evalZ env σ a x h1 h3 hx hxn, elab_evalZ env σ b y h2 h4 hy hyn]; rfl
+        rw [pyCmp_truth σ op x y co h5.1 h5.2 h, elab_evalZ env σ a x h1 hx, elab_evalZ env σ b y h2 hy]; rfl
   | truth e =>
     intro co hok h
-    simp only [SCond.surfOk, Bool.and_eq_true, Bool.not_eq_true'] at hok
-    obtain ⟨⟨h1, h2⟩, h3⟩ := hok
+    simp only [SCond.surfOk, Bool.and_eq_true] at hok
+    obtain ⟨h1, h3⟩ := hok
     simp only [elabC, bind, Except.bind] at h
     cases hx : elabE env e with
     | error er => rw [hx] at h; cases h
@@ -179,12 +177,11 @@ theorem elabC_truth (env : List VarLoc) (σ : State) : ∀ (c : SCond) (co : COb
       cases x with
       | ex l =>
         simp only [] at h
-        have hz := elab_evalZ env σ e (.ex l) h1 h2 hx (by simp)
+        have hz := elab_evalZ env σ e (.ex l) h1 hx
         simp only [PyVal.evalZ] at hz
         rw [exprNe_truth σ l (.int 0) co h3 h]
         simp only [SCond.truthZ, PyVal.evalZ, hz]
       | int v => simp [typeError] at h
-      | none => simp [typeError] at h
   | not c ih =>
     intro co hok h
     simp only [elabC, bind, Except.bind] at h
